@@ -1006,7 +1006,10 @@ func (e *AnimEncoder) increasePreviousDuration(durMS int) error {
 	e.prevMuxIndex = e.muxer.NumFrames() - 1
 	e.frameCount++
 	e.countSinceKeyframe++
-	// prevCanvas and prevFrameRect remain unchanged since the canvas is identical.
+	// prevCanvas remains unchanged since the canvas is identical, but the
+	// filler is now the previous frame: a later dispose-to-background decision
+	// applies to its rectangle, not to that of the frame before it.
+	e.prevFrameRect = image.Rect(0, 0, 1, 1)
 	return nil
 }
 
